@@ -20,11 +20,54 @@ Record obs_req := {
   o_body : str
 }.
 
+(* A world = one sso-proxy instance: what the deployer wrote (service name, SSO_CONFIG_* variables as
+   (NAME, value) pairs, options) and the oracle [w_algs] = the hash names hmacauth accepts in this binary. *)
+Record world := {
+  w_signer : option N;
+  w_algs : list str;
+  w_service : str;
+  w_environ : list (str * str);
+  w_skip : bool;
+  w_inject : list (str * str);
+  w_cookie_name : str;
+  w_thost : str
+}.
+
+(* the configuration the MODEL derives from it (proxy_config.go) *)
+Definition cfg_of_world (w : world) : cfg :=
+  {| c_signer := w_signer w;
+     c_hmac := match hmac_of_config (w_algs w) (w_service w) (w_environ w) with HmacOn k => Some k | _ => None end;
+     c_skip := w_skip w; c_pass_token := false; c_inject := w_inject w;
+     c_cookie_name := w_cookie_name w; c_preserve_host := false;
+     c_thost := w_thost w; c_tpath := []; c_tquery := [] |}.
+
+(* the DOCUMENTED rule (docs/sso_config.md "Request Signing"), written independently: the variable
+   SSO_CONFIG_{{SERVICE}}_SIGNING_KEY (upper-cased service name, i.e. matched without regard to case)
+   holds `algorithm:secret_value`; the secret is the shared key. *)
+Fixpoint cut_colon (s : str) : option (str * str) :=
+  match s with
+  | [] => None
+  | c :: s' => if N.eqb c 58 then Some ([], s')
+               else match cut_colon s' with Some (a, b) => Some (c :: a, b) | None => None end
+  end.
+Definition doc_hmac (w : world) : hmac_config :=
+  let name := lower_ascii (clean_ws (w_service w) ++ signing_key_suffix) in
+  match find (fun e => str_eqb (lower_ascii (fst e)) name) (w_environ w) with
+  | None => HmacOff
+  | Some (_, spec) =>
+      match cut_colon spec with
+      | Some (a, secret) => if existsb (N.eqb 58) secret then HmacConfigError
+                            else if mem_str a (w_algs w) then HmacOn secret else HmacConfigError
+      | None => HmacConfigError
+      end
+  end.
+
 Inductive case :=
-| CFwd (c : cfg) (ident : option identity) (r0 : request) (parsed : list (str * str)) (sent_body : str)
+| CFwd (w : world) (vkey : str) (ident : option identity) (r0 : request) (parsed : list (str * str)) (sent_body : str)
        (recv : obs_req) (impl_rsa impl_hmac : str)
        (v_rsa : option bool) (v_kid : bool) (v_hmac : N)
-| CNotFwd (expected_forward : bool) (status : N).
+| CNotFwd (expected_forward : bool) (status : N)
+| CCfg (w : world) (start_error : bool).
 
 (* the code's lists, re-extracted from the source on every run *)
 Definition gen_cov : list str := signedHeaders.
@@ -51,11 +94,12 @@ Definition holds_rsa (c : cfg) (recv : obs_req) (impl_rsa : str) (v_rsa : option
                str_eqb (canon_rsa documented_covered (of_obs recv)) impl_rsa)
   | None => true
   end.
-Definition holds_hmac (c : cfg) (recv : obs_req) (impl_hmac : str) (v_hmac : N) : bool :=
-  match c_hmac c with
-  | Some _ => negb (signing_on c) ||
-              (N.eqb v_hmac 3 && str_eqb (canon_hmac documented_covered (of_obs recv)) impl_hmac)
-  | None => true
+(* [v_hmac] is hmacauth.AuthenticateRequest at the upstream, keyed with the secret the deployer wrote *)
+Definition holds_hmac (w : world) (recv : obs_req) (impl_hmac : str) (v_hmac : N) : bool :=
+  match doc_hmac w with
+  | HmacOn _ => w_skip w ||
+                (N.eqb v_hmac 3 && str_eqb (canon_hmac documented_covered (of_obs recv)) impl_hmac)
+  | _ => true
   end.
 Definition holds_body (sent_body : str) (recv : obs_req) : bool := str_eqb sent_body (o_body recv).
 
@@ -72,42 +116,54 @@ Definition gap_present (p : request) : bool :=
   match r_gap_sig p with Some _ => true | None => has_header gap_signature (r_headers p) end.
 
 (* known findings: K1 = a Connection token names a covered or signature header (hop-by-hop removal
-   after signing); K2 = the Content-Length header at signing time is not the one the transport writes *)
+   after signing); K2 = the Content-Length header at signing time is not the one the transport writes;
+   K3 = the documented variable is set but the service name is not lower-case, so the key is never found *)
 Definition protected : list str := documented_covered ++ sig_headers.
+Definition is_on (h : hmac_config) : bool := match h with HmacOn _ => true | _ => false end.
+Definition is_err (h : hmac_config) : bool := match h with HmacConfigError => true | _ => false end.
 
 Definition judge (cs : case) : N :=
   match cs with
   | CNotFwd expected _ => code expected true 0
-  | CFwd c ident r0 parsed sent_body recv impl_rsa impl_hmac v_rsa v_kid v_hmac =>
+  | CCfg w start_error =>
+      let m := hmac_of_config (w_algs w) (w_service w) (w_environ w) in
+      (* a configuration that is well-formed by the documented rule starts *)
+      code (negb (bool_eqb (is_err m) start_error)) (is_err (doc_hmac w) || negb start_error) 0
+  | CFwd w vkey ident r0 parsed sent_body recv impl_rsa impl_hmac v_rsa v_kid v_hmac =>
+      let c := cfg_of_world w in
       let rs := at_sign_time c parsed ident r0 in
       let p := received gen_cov gen_covh c parsed ident loopback r0 in
       let certs := published_certs c in
       let rsa_on := signing_on c && match c_signer c with Some _ => true | None => false end in
-      let hmac_on := signing_on c && match c_hmac c with Some _ => true | None => false end in
+      let hmac_on := signing_on c && (is_on (doc_hmac w) || match c_hmac c with Some _ => true | None => false end) in
       let m_proj := negb (proj_eq p recv) in
       let m_canon := negb (str_eqb (canon_rsa gen_cov (of_obs recv)) impl_rsa) ||
                      negb (str_eqb (canon_hmac gen_covh (of_obs recv)) impl_hmac) in
       let m_rsa := rsa_on && negb (option_eqb bool_eqb (verify_rsa gen_cov certs p) v_rsa &&
                                    bool_eqb (kid_published certs p) v_kid &&
                                    bool_eqb (sig_present p) (has_header sso_signature (o_headers recv))) in
-      let m_hmac := hmac_on && negb (match c_hmac c with
-                                     | Some k => N.eqb (verify_hmac gen_covh k p) v_hmac
-                                     | None => true end &&
+      let m_hmac := hmac_on && negb (N.eqb (verify_hmac gen_covh vkey p) v_hmac &&
                                      bool_eqb (gap_present p) (has_header gap_signature (o_headers recv))) in
+      (* harness consistency: the body recorded as sent is the parsed one; the verification key is the documented secret *)
       let m_body := negb (str_eqb (body_bytes r0) sent_body) in
-      let holds := holds_rsa c recv impl_rsa v_rsa v_kid && holds_hmac c recv impl_hmac v_hmac &&
+      let m_vkey := match doc_hmac w with HmacOn s => negb (str_eqb s vkey) | _ => false end in
+      let holds := holds_rsa c recv impl_rsa v_rsa v_kid && holds_hmac w recv impl_hmac v_hmac &&
                    holds_body sent_body recv in
       let known : N :=
         if negb (conn_safe protected (r_headers rs)) then 1
-        else if negb (cl_canonical rs) then 2 else 0 in
-      code (m_proj || m_canon || m_rsa || m_hmac || m_body) holds known
+        else if negb (cl_canonical rs) then 2
+        else if is_on (doc_hmac w) && negb (is_on (hmac_of_config (w_algs w) (w_service w) (w_environ w))) then 3
+        else 0 in
+      code (m_proj || m_canon || m_rsa || m_hmac || m_body || m_vkey) holds known
   end.
 
 (* classes: 0 = not forwarded; otherwise 1 + flags *)
 Definition classify (cs : case) : N :=
   match cs with
   | CNotFwd _ _ => 0
-  | CFwd c ident r0 parsed _ recv _ _ v_rsa _ v_hmac =>
+  | CCfg w e => 4096 + (if e then 1 else 0) + 2 * (if is_on (doc_hmac w) then 1 else 0)
+  | CFwd w _ ident r0 parsed _ recv _ _ v_rsa _ v_hmac =>
+      let c := cfg_of_world w in
       let rs := at_sign_time c parsed ident r0 in
       1 + (match c_signer c with Some _ => 1 | None => 0 end)
         + 2 * (match c_hmac c with Some _ => 1 | None => 0 end)
@@ -120,5 +176,5 @@ Definition classify (cs : case) : N :=
         + 256 * (if cl_canonical rs then 0 else 1)
         + 512 * (match v_rsa with Some true => 1 | _ => 0 end)
         + 1024 * (if N.eqb v_hmac 3 then 1 else 0)
-        + 2048 * (if is_empty (o_rawquery recv) then 0 else 1)
+        + 2048 * (if is_empty (w_inject w) then 0 else 1)
   end.
